@@ -168,10 +168,10 @@ def attrStep (l : Cls) (a : Option Cls) : Res Unit :=
   | none => pure ()
   | some k => forItems l (fun e => getitemH e k)
 
-/-- `message_text % vars` on the text of a value that went through `to_liquid_string` -/
+/-- `format_message`: every `%` that does not start a `%(name)s` placeholder is doubled, then `escaped % vars` -/
 def fmtOf (v : Cls) : Res Unit := do
   let s ← toLiquidString v
-  if s == str_repr then pure () else pyPercentFormat s
+  if s == str_repr then pure () else pyPercentFormatEscaped s
 
 /-- the plural text of `ngettext` / `npgettext`: stringified, and %-formatted when the count selects it -/
 def pluralStep (a : Option Cls) : Res Unit :=
@@ -364,13 +364,10 @@ def st_sum (l : Cls) : Steps :=
 
 def st_date (l : Cls) : Steps :=
   {
-  -- `functools.lru_cache` hashes both arguments first
-  s0 := if l.isList || l.isDict then raise .TypeError else pure (),
   s1 := fun a => match a with
     | none => pure ()
     | some fmt =>
-      if fmt.isList || fmt.isDict then raise .TypeError
-      else if l == undefined then pure ()
+      if l == undefined then pure ()
       else if fmt == undefined then (pyStr l).unit
       else do
         -- parse `dat`; `false` = the filter returned `str(dat)` early
@@ -562,10 +559,9 @@ def runSite (s : Site) (x : Cls) : Res Unit :=
   | .output => (toLiquidString x).unit
   | .range_bound =>   -- RangeLiteral._make_range
     (tryCatch (toInt x) catch_builtin_expressions_primitive_RangeLiteral__make_range_0 (fun _ => some (pure int_zero))).unit
-  | .for_limit | .tablerow_limit => do
-    let n ← loopToInt x
-    -- `_slice`: `islice(it, start_, stop_)` with `stop_ = min(limit + 0 or length, length)`
-    if n == int_neg then raise .ValueError else pure ()
+  | .for_limit | .tablerow_limit =>
+    -- `_slice` clamps: `stop_ = length if stop is None else min(max(stop, start_), length)`, never negative
+    (loopToInt x).unit
   | .for_offset => (loopToInt x).unit
   | .tablerow_cols =>
     (tryCatch (toInt x) catch_builtin_tags_tablerow_tag_TablerowNode__int_or_zero_0 (fun _ => some (pure int_zero))).unit
@@ -576,8 +572,7 @@ def runSite (s : Site) (x : Cls) : Res Unit :=
     else if x.isStr || x.isList || x.isDict || x == range_ then pure ()
     else raise .LiquidTypeError
   | .contains_in_str => if liquidFalsy x then pure () else (pyStr x).unit    -- `'hello' contains x`
-  | .contains_in_dict =>   -- `d contains x`: `x in d` hashes x
-    if liquidFalsy x then pure () else if x.isList || x.isDict then raise .TypeError else pure ()
+  | .contains_in_dict => pure ()   -- `d contains x`: `any(_eq(item, x) for item in d)`, nothing is hashed
   | .include_name => do let _ ← pyStr x; raise .TemplateNotFoundError
   | .cycle_item => (toLiquidString x).unit
 
